@@ -350,8 +350,58 @@ def name_cases():
     return out
 
 
+_ENV_SCRIPT = r'''
+import json, sys
+sys.path.insert(0, sys.argv[1])
+from htmltools import HTMLDocument, HTMLDependency, Tag, head_content
+docs = {
+    "fragment": HTMLDocument(Tag("p", "caf\u00e9 \u4e2d"), HTMLDependency("a", "1.0", source={"subdir": "libdir"}, script={"src": "a.js"})),
+    "own-html": HTMLDocument(Tag("html", Tag("head", Tag("title", "t")), Tag("body", "b")), lang="en"),
+    "empty": HTMLDocument(),
+    "head-content": HTMLDocument(Tag("div", "x", head_content(Tag("title", "hc")))),
+}
+print(json.dumps({k: d.render()["html"] for k, d in docs.items()}))
+'''
+ENVS = {
+    "C-locale-no-utf8-mode": (dict(LC_ALL="C", LANG="C", PYTHONUTF8="0", PYTHONCOERCECLOCALE="0", PYTHONIOENCODING="utf-8"), []),
+    "latin1-stdio": (dict(PYTHONUTF8="0", PYTHONIOENCODING="latin-1:backslashreplace", LC_ALL="C"), []),
+    "optimised": ({}, ["-O"]),
+    "isolated": ({}, ["-I"]),
+}
+
+
+def fn_env(envname):
+    """the same documents rendered by a fresh interpreter in another process environment (C locale without UTF-8 mode,
+    latin-1 standard streams, -O, -I): byte-identical to this process, <head> starting with <meta charset="utf-8"/>."""
+    import json
+    import subprocess
+    import sys
+    from .. import REPO
+    extra, flags = ENVS[envname]
+    env = dict(os.environ, PYTHONDONTWRITEBYTECODE="1", **extra)
+    p = subprocess.run(["/venv/bin/python", *flags, "-c", _ENV_SCRIPT, REPO], capture_output=True, env=env, timeout=120)
+    viols = []
+    if p.returncode != 0:
+        return (True, "crash", [(f"environment:{envname}:crash", p.stderr.decode("utf-8", "replace")[-400:], {})], 1)
+    theirs = json.loads(p.stdout.decode("ascii"))
+    here = subprocess.run(["/venv/bin/python", "-c", _ENV_SCRIPT, REPO], capture_output=True, timeout=120,
+                          env=dict(os.environ, PYTHONDONTWRITEBYTECODE="1"))
+    mine = json.loads(here.stdout.decode("ascii"))
+    for k in mine:
+        if theirs.get(k) != mine[k]:
+            viols.append((f"environment:{envname}", f"document {k!r} rendered under {envname} differs from the default environment",
+                          {"observed": theirs.get(k), "expected": mine[k]}))
+        if '<head>\n    <meta charset="utf-8"/>' not in theirs.get(k, ""):
+            viols.append((f"environment:{envname}:charset", f"document {k!r}: <head> does not start with <meta charset=\"utf-8\"/>",
+                          {"observed": theirs.get(k)}))
+    return (True, envname, viols, 2)
+
+
 def plan(tier):
-    return plan0(tier) + plan_extra(tier)
+    return plan0(tier) + plan_extra(tier) + [
+        dict(kind="space", name="other-process-environments", fn=fn_env, space=Const(list(ENVS)), serial=True,
+             note="4 documents rendered by fresh interpreters under 4 process environments (C locale without UTF-8 mode, latin-1 "
+                  "standard streams, -O, -I): identical bytes, charset utf-8")]
 
 
 def plan_extra(tier):
